@@ -183,6 +183,50 @@ def mutate(doc, r):
     return set_at(doc, path, copy.deepcopy(r.choice(JUNK))), 'junk'
 
 
+def eq_other_type(v):
+    """values that are == to v but of another type (1 == 1.0 == True): what a hash/== lookup cannot tell apart"""
+    out = []
+    if isinstance(v, bool):
+        out += [int(v), float(v)]
+    elif isinstance(v, int):
+        if abs(v) < 2 ** 53: out.append(float(v))
+        if v in (0, 1): out.append(bool(v))
+    elif isinstance(v, float):
+        if v == v and abs(v) < 2 ** 53 and v == int(v):
+            out.append(int(v))
+            if v in (0.0, 1.0): out.append(bool(v))
+    elif isinstance(v, str):
+        try:
+            out.append(int(v))
+        except ValueError:
+            pass
+    return out
+
+
+def systematic_mutations(doc, r, cap):
+    """single-position mutations enumerated over EVERY position of the document (then sampled down to `cap`):
+    scalar -> each ==-but-differently-typed value; list -> one element shorter / one longer; any position -> null."""
+    out = []
+    for path in all_paths(doc):
+        node = get_at(doc, path)
+        if isinstance(node, list):
+            if node:
+                out.append((set_at(doc, path, node[:-1]), 'short'))
+            out.append((set_at(doc, path, node + [None]), 'long'))
+        elif not isinstance(node, dict):
+            for w in eq_other_type(node):
+                out.append((set_at(doc, path, w), 'eqtype'))
+        if path and node is not None:
+            out.append((set_at(doc, path, None), 'null'))
+    r.shuffle(out)
+    # keep the kinds balanced
+    picked, seen = [], {}
+    for d, k in out:
+        if seen.get(k, 0) < max(1, cap // 4):
+            picked.append((d, k)); seen[k] = seen.get(k, 0) + 1
+    return picked[:cap]
+
+
 # ------------------------------------------------------------------------------ loading
 def v1_spec(spec):
     s = copy.deepcopy(spec)
@@ -236,7 +280,10 @@ def run_case(c):
         reg1 = rt.Reg()
         spec1 = v1_spec(c['root'])
         cls1 = rt.build_type(spec1, reg1)
-        LoadMeta(v1=True, v1_key_case='AUTO').bind_to(cls1)
+        auto = rt.spec_has(c['root'], 'auto_tag')
+        if auto:
+            LoadMeta(auto_assign_tags=True).bind_to(cls)
+        LoadMeta(v1=True, v1_key_case='AUTO', **({'auto_assign_tags': True} if auto else {})).bind_to(cls1)
         x = rt.build_value(c['value'], reg)
         d = asdict(x)
         try:
@@ -254,6 +301,11 @@ def run_case(c):
     for _ in range(c.get('n_mut', 4)):
         try:
             docs.append(mutate(base, r))
+        except Exception:
+            pass
+    if c.get('n_sys'):
+        try:
+            docs.extend(systematic_mutations(base, r, c['n_sys']))
         except Exception:
             pass
     for extra in c.get('extra_docs', []):
